@@ -578,6 +578,71 @@ func structuralObligation(w *World, ms *ModSets, st *Structural) *Obligation {
 				}
 			}
 		}
+	case "callees":
+		// every function of package <target> calls, outside the module, only functions of the listed packages / names
+		o.Desc = "package " + st.Target + " calls outside the module only: " + strings.Join(st.Allowed, ", ")
+		for _, fn := range w.AllFn {
+			top := fn
+			for top.Parent() != nil {
+				top = top.Parent()
+			}
+			if top.Pkg == nil || top.Pkg.Pkg.Name() != st.Target {
+				continue
+			}
+			for _, b := range fn.Blocks {
+				for _, in := range b.Instrs {
+					ci, ok := in.(ssa.CallInstruction)
+					if !ok {
+						continue
+					}
+					cc := ci.Common()
+					name, pkgp := "", calleePkgPath(cc)
+					if f, ok := cc.Value.(*ssa.Function); ok {
+						if inModule(f) {
+							continue
+						}
+						name = f.String()
+					} else if cc.IsInvoke() {
+						if cc.Method.Pkg() != nil && isModPath(cc.Method.Pkg().Path()) {
+							continue
+						}
+						name = pkgp + "." + cc.Method.Name()
+					} else {
+						continue
+					}
+					okc := strings.HasSuffix(name, ".init") // package initialisers
+					for _, a := range st.Allowed {
+						if a == pkgp || a == name || strings.HasSuffix(a, "*") && strings.HasPrefix(name, strings.TrimSuffix(a, "*")) {
+							okc = true
+						}
+					}
+					if !okc {
+						bad = append(bad, funcKey(fn)+" calls "+name)
+					}
+				}
+			}
+		}
+	case "fieldtypes":
+		// the fields of struct <target> have exactly the listed types (no handle on anything else)
+		o.Desc = "the fields of " + st.Target + " have only the types: " + strings.Join(st.Allowed, ", ")
+		sp := w.SPkgs[st.Pkg]
+		found := false
+		if sp != nil {
+			if tn, ok := sp.Members[st.Target].(*ssa.Type); ok {
+				if su, ok := tn.Type().Underlying().(*types.Struct); ok {
+					found = true
+					for i := 0; i < su.NumFields(); i++ {
+						ts := types.TypeString(su.Field(i).Type(), func(p *types.Package) string { return p.Name() })
+						if !allowed[ts] {
+							bad = append(bad, "field "+su.Field(i).Name()+" of type "+ts)
+						}
+					}
+				}
+			}
+		}
+		if !found {
+			bad = append(bad, "type not found")
+		}
 	case "jsonfields":
 		o.Desc = "the JSON field set of " + st.Target + " is exactly: " + strings.Join(st.Allowed, ", ")
 		sp := w.SPkgs[st.Pkg]
